@@ -20,7 +20,9 @@ RULE = (
     "fields), vs non-records; 'nested' / 'grouped' = the same for records holding record / record[] values and for grouped "
     "records (variation inside a member / nested record, other group name, swapped members); 'borderline' = value pairs whose "
     "equality the statement leaves open (NaN, 0.0/-0.0, 1/True, differently spelled paths, same instant in another zone, hex "
-    "case); 'coincident' = two different descriptors whose identifiers coincide by construction; 'ipfamily' = addresses of "
+    "case); 'dictorder' = dictlist values whose dicts have keys of mixed, mutually unorderable types (int / str / None / bytes / tuple / "
+    "float), also nested in lists and dicts of the dict values, inserted in different orders in two otherwise identical records (plain, "
+    "held by record / record[] fields, as grouped members): must be equal, hash equal and be found in sets / dicts; 'coincident' = two different descriptors whose identifiers coincide by construction; 'ipfamily' = addresses of "
     "different family / scope with the same integer; 'scope' = the ignore configuration installed by "
     "set_ignored_fields_for_comparison or the context manager (list / set / tuple / frozenset / dict / generator; nested scopes; an "
     "exception injected inside the scope in half of the cases).  Every pair is compared under the ignore configurations {} , "
@@ -87,6 +89,10 @@ def teardown(ctx):
 
 def generate(ctx):
     idx = 0
+    for i in range(ctx.scale(24, 400)):
+        if ctx.mine(idx):
+            yield {"k": "dictorder", "s": subseed("c12", ctx.seed, "dictorder", i)}
+        idx += 1
     for kind in ("coincident", "ipfamily", "borderline"):
         for i in range(ctx.scale(2, 6)):
             if ctx.mine(idx):
@@ -494,13 +500,8 @@ def classify_hash_difference(a, b):
     dictlist fields (dict equality ignores that order, the hash is computed from the items in order)."""
     try:
         oa, ob = observe.obs(a), observe.obs(b)
-        diff = slots_differing(oa, ob)
-        if not diff:
-            return None
-        types = {n: t for t, n in oa[2]}
-        if any(types.get(k) != "dictlist" for k in diff):
-            return None
-        return KEY_DICT_ORDER if _sort_dicts(oa) == _sort_dicts(ob) else None
+        # dict observations only occur inside dictlist values: identical once every dict's items are put in one canonical order
+        return KEY_DICT_ORDER if oa != ob and _sort_dicts(oa) == _sort_dicts(ob) else None
     except Exception:  # noqa: BLE001
         return None
 
@@ -780,6 +781,84 @@ def run_borderline(ctx, case):
     ctx.nontrivial("borderline", case["s"])
 
 
+MIXED_KEYS = [1, "x", None, b"k", "k", (1, 2), 2.5, -7, "", ("a", None), b"", 10**30, "1"]
+
+
+def _reorder(value, rng):
+    """the same value with the items of every dict (at any depth) inserted in another order"""
+    if isinstance(value, dict):
+        items = [(k, _reorder(v, rng)) for k, v in value.items()]
+        if len(items) > 1:
+            first = items[:]
+            for _ in range(5):
+                rng.shuffle(items)
+                if [k for k, _ in items] != [k for k, _ in first]:
+                    break
+            else:
+                items.reverse()
+        return dict(items)
+    if isinstance(value, list):
+        return [_reorder(v, rng) for v in value]
+    return value
+
+
+def _mixed_dict(rng, depth=0):
+    keys = rng.sample(MIXED_KEYS, rng.randint(2, 5))
+    if len({type(k) for k in keys}) < 2:
+        keys[0] = 1 if not isinstance(keys[0], int) else "x"
+        keys = list(dict.fromkeys(keys))
+        if len(keys) < 2:
+            keys = [1, "x"]
+    d = {}
+    for k in keys:
+        r = rng.random()
+        if depth < 2 and r < 0.2:
+            d[k] = _mixed_dict(rng, depth + 1)
+        elif depth < 2 and r < 0.4:
+            d[k] = [_mixed_dict(rng, depth + 1) for _ in range(rng.randint(1, 2))] + [rng.choice([1, "s", None])]
+        else:
+            d[k] = rng.choice([1, "s", None, 2.5, True, b"v", "\udcff"])
+    return d
+
+
+def run_dictorder(ctx, case):
+    """dictlist values whose dicts have keys of mixed, mutually unorderable types (int / str / None / bytes / tuple), also nested
+    inside lists and dicts of the dict values, populated in different insertion orders in two otherwise identical records; plain,
+    held by a nested record field, and as members of grouped records.  Dict equality ignores insertion order, so the records are
+    equal: equal hashes and set / dict membership are demanded."""
+    from flow.record import GroupedRecord, RecordDescriptor
+
+    rng = random.Random(case["s"])
+    d = RecordDescriptor("c12/dictorder", [("dictlist", "f"), ("string", "s"), ("dictlist", "g")])
+    fa = [_mixed_dict(rng) for _ in range(rng.randint(1, 3))]
+    ga = [_mixed_dict(rng)] if rng.random() < 0.5 else None
+    fb, gb = _reorder(fa, rng), _reorder(ga, rng) if ga is not None else None
+    if fa != fb or repr(fa) == repr(fb):
+        ctx.event("dictorder_generator_selfcheck_failed")
+        return
+    a, b = d(f=fa, s="x", g=ga, _generated=STAMP), d(f=fb, s="x", g=gb, _generated=STAMP)
+    holder = RecordDescriptor("c12/dictorder_holder", [("record", "inner"), ("record[]", "inners")])
+    other = RecordDescriptor("c12/dictorder_other", [("varint", "n")])
+    pairs = [("plain", a, b),
+             ("nested", holder(inner=a, inners=[a], _generated=STAMP), holder(inner=b, inners=[b], _generated=STAMP)),
+             ("grouped", GroupedRecord("c12/dictgroup", [a, other(n=1, _generated=STAMP)]), GroupedRecord("c12/dictgroup", [b, other(n=1, _generated=STAMP)]))]
+    configs = [("none", set()), ("_generated", {"_generated"}), ("field", {"s"})]
+    for shape, x, y in pairs:
+        info0 = {"case": case, "a": describe(x), "b": describe(y), "pair": "dict insertion order (%s)" % shape}
+
+        def body(label, ignored):
+            info = dict(info0, ignored=sorted(ignored), config=label)
+            reflexive(ctx, x, info)
+            before = ctx.events.get("hash_consistency_checked", 0)
+            compare(ctx, x, y, "equal", info)
+            ctx.event("dictorder_hash_checked", ctx.events.get("hash_consistency_checked", 0) - before)
+            ctx.cell("pair", "dictorder", shape)
+
+        run_under_configs(ctx, rng, configs, body)
+    ctx.nontrivial("dictorder", case["s"])
+    ctx.sample({"case": case, "a": describe(a), "b": describe(b)}, kind="dictorder")
+
+
 def run_coincident(ctx, case):
     """Two different descriptors (same name, different field lists) built so that name + sum(fieldname + fieldtype) is the same
     text: their records must still be unequal.  Known mechanism: the identifier coincides."""
@@ -910,6 +989,8 @@ def execute(ctx, case):
         run_borderline(ctx, case)
     elif k == "coincident":
         run_coincident(ctx, case)
+    elif k == "dictorder":
+        run_dictorder(ctx, case)
     elif k == "ipfamily":
         run_ipfamily(ctx, case)
     elif k == "scope":
@@ -939,5 +1020,6 @@ def finish(ctx):
     ctx.require(ev.get("scope_restore_checked", 0) > 0, "the scope-restoration monitor never ran")
     ctx.require(ev.get("config_installed:scope+exception", 0) > 0, "no scope ended with an injected exception")
     ctx.require(ev.get("reflexive_checked", 0) > 0, "reflexivity was never checked")
+    ctx.require(ev.get("dictorder_hash_checked", 0) > 0, "hash consistency of records differing only in dict insertion order was never checked")
     for q in ANCHORS[:6]:
         ctx.require(ctx.reach.get(q, 0) > 0, "anchor %s was never entered" % q)
